@@ -203,6 +203,9 @@ fn no_backtracking(sn: &Rc<RefCell<SolutionNode>>) -> bool {
 pub fn next_solution<'a>(sn: Rc<RefCell<SolutionNode<'a>>>)
                          -> Option<Rc<SubstitutionSet<'a>>> {
 
+    #[cfg(feature = "verif-hooks")]
+    crate::verif_hooks::verif_tick();
+
     if no_backtracking(&sn) { return None; }
     let goal = get_goal(&sn);
 
